@@ -12,6 +12,25 @@ EVIDENCE_DIR = _ALT if _ALT else os.path.join(VERIF, "evidence")
 REPLAY_DIR = os.path.join(_ALT, "replay") if _ALT else os.path.join(VERIF, "replay")
 
 
+class RuleView:
+    """a view of a report that renames the rules a shared analysis reports under (rule ids not in the map are dropped:
+    they are the owning property's business)"""
+    def __init__(self, rep, mapping):
+        self.rep, self.mapping = rep, mapping
+
+    def ok(self, rule, *a, **k):
+        if rule in self.mapping:
+            self.rep.ok(self.mapping[rule], *a, **k)
+
+    def violation(self, rule, *a, **k):
+        if rule in self.mapping:
+            self.rep.violation(self.mapping[rule], *a, **k)
+
+    def inconclusive(self, rule, *a, **k):
+        if rule in self.mapping:
+            self.rep.inconclusive(self.mapping[rule], *a, **k)
+
+
 class Report:
     def __init__(self, pid, tier, level, seed=0):
         self.pid = pid
